@@ -46,7 +46,7 @@ def gen_new(rng, ftype, cost=None, nmax=8, minimizer=None):
     spec["tiny"] = (not poisson) and ftype in ("xy", "indexed") and rng.random() < 0.12  # uncertainties of order 1e-5 (units!)
     crossing = (not poisson) and rng.random() < 0.3  # data / model values of both signs
     if ftype == "xy":
-        n = rng.randint(2, nmax)
+        n = rng.randint(2, min(nmax, 9) if poisson else min(nmax, 13))
         mk = rng.choice(["linear", "quadratic", "expo", "quadratic", "linear"] if poisson else ["linear", "quadratic", "expo", "sine", "recip"])
         f, df, d3, names, dflt = userlib.XY_MODELS[mk]
         # kafe2 applies the Poisson data check to the whole (x, y) array of an xy fit: x must be a non-negative integer too
